@@ -29,12 +29,12 @@ private def tailWith (h : H) (k : Kind) (n : Int) (codecRet : Int) (inside : Boo
   let cap := capacity h k n
   let count := codecRet
   if inside then
-    { ret := (match k with | .items => count | .frames => Int.tdiv count h.ch),
-      asked := some cap, h := { h with rc := h.rc + Int.tdiv count h.ch, lastOpRead := true, err := 0 } }
+    { ret := (match k with | .items => wholeItems count h.ch | .frames => Int.tdiv count h.ch),
+      asked := some cap, h := { h with rc := h.rc + Int.tdiv count h.ch, lastOpRead := wholeOk count h.ch, err := 0 } }
   else
     let c2 := remItemsC h
-    { ret := (match k with | .items => c2 | .frames => Int.tdiv c2 h.ch),
-      asked := some cap, zeroed := [(c2, cap - c2)], h := { h with rc := h.frames, lastOpRead := true, err := 0 } }
+    { ret := (match k with | .items => wholeItems c2 h.ch | .frames => Int.tdiv c2 h.ch),
+      asked := some cap, zeroed := [(c2, cap - c2)], h := { h with rc := h.frames, lastOpRead := wholeOk c2 h.ch, err := 0 } }
 
 /-- the clamp as written between fc49efc and 58598c2 -/
 def readTailOldC (h : H) (k : Kind) (n : Int) (codecRet : Int) : ROut :=
@@ -52,13 +52,13 @@ theorem readTailC_def (h : H) (k : Kind) (n c : Int) :
 
 theorem tailWith_true (h : H) (k : Kind) (n c : Int) :
     tailWith h k n c true =
-      { ret := (match k with | .items => c | .frames => Int.tdiv c h.ch), asked := some (capacity h k n),
-        h := { h with rc := h.rc + Int.tdiv c h.ch, lastOpRead := true, err := 0 } } := rfl
+      { ret := (match k with | .items => wholeItems c h.ch | .frames => Int.tdiv c h.ch), asked := some (capacity h k n),
+        h := { h with rc := h.rc + Int.tdiv c h.ch, lastOpRead := wholeOk c h.ch, err := 0 } } := rfl
 
 theorem tailWith_false (h : H) (k : Kind) (n c : Int) :
     tailWith h k n c false =
-      { ret := (match k with | .items => remItemsC h | .frames => Int.tdiv (remItemsC h) h.ch), asked := some (capacity h k n),
+      { ret := (match k with | .items => wholeItems (remItemsC h) h.ch | .frames => Int.tdiv (remItemsC h) h.ch), asked := some (capacity h k n),
         zeroed := [(remItemsC h, capacity h k n - remItemsC h)],
-        h := { h with rc := h.frames, lastOpRead := true, err := 0 } } := rfl
+        h := { h with rc := h.frames, lastOpRead := wholeOk (remItemsC h) h.ch, err := 0 } } := rfl
 
 end Sf.ReadWrap
